@@ -76,6 +76,20 @@ Fixpoint expand (fuel : nat) (ds : list tdef) (is_seq : bool) (items : list cite
 Definition expanded_members (ds : list tdef) (n : str) : option (list str) :=
   option_map (fun d => expand (length ds) ds (t_is_seq d) (t_items d)) (find_def n ds).
 
+(* ---- the shape of COMPONENTS OF chains the pass is proved right for (Proofs/C09Chain.v) ---- *)
+(* the COMPONENTS OF entries of a definition come last *)
+Definition trailing (d : tdef) : Prop :=
+  t_items d = map Own (own_names (t_items d)) ++ map ComponentsOf (refs_of (t_items d)).
+
+(* [ordered_chain ds h n]: n is defined, its COMPONENTS OF entries come last, and each names a type of the same kind that
+   sorts after n and is itself the head of such a chain of height below h *)
+Inductive ordered_chain (ds : list tdef) : nat -> str -> Prop :=
+| oc_intro h n d :
+    find_def n ds = Some d -> trailing d ->
+    (forall r, In r (refs_of (t_items d)) ->
+               str_compare n r = Lt /\ exists dr, find_def r ds = Some dr /\ t_is_seq dr = t_is_seq d /\ ordered_chain ds h r) ->
+    ordered_chain ds (S h) n.
+
 (* ---- selection type: `alt < Choice` is the type of that alternative ---- *)
 Definition select (alts : list (str * N)) (alt : str) : option N :=
   (fix go (l : list (str * N)) : option N :=
